@@ -660,7 +660,12 @@ class Calls(object):
         ro = rt.ops(cx)
         f = cx.func("comp_%s_%s" % (hname, rt.name.replace("[", "_").replace("]", "_")),
                     *([src.t.sort(cx)] + [v.t.sort(cx) for v in fvals] + [rt.sort(cx)]))
-        r = f(src.e, *[v.e for v in fvals])
+        # name source and result (keeps ite-terms of slices out of quantifier patterns)
+        srcc = z3.FreshConst(src.t.sort(cx), "compsrc")
+        st.assume(srcc == src.e)
+        r = z3.FreshConst(rt.sort(cx), "comp")
+        st.assume(r == f(srcc, *[v.e for v in fvals]))
+        src = SV(srcc, src.t)
         ln = ro["len"](r)
         if g.ifs:
             st.assume(ln <= o["len"](src.e))
